@@ -353,7 +353,7 @@ def withLockedVersion (cfg : Cfg) (s : State) (bk : Bucket) (k vid : Bytes)
     (f : Ver → List Ver → List Ver → State × Resp) : State × Resp :=
   let vs := bk.versions k
   if vs.isEmpty then (s, errR "NoSuchKey") else
-  if !((bk.lock.map (·.enabled)).getD false) then (s, errR "InvalidBucketObjectLockConfiguration") else
+  if !((bk.lock.map (·.enabled)).getD false) then (s, errR "InvalidRequest") else
   if vid.isEmpty then
     match vs with
     | v :: rest => f v rest []
@@ -589,6 +589,9 @@ def handle (cfg : Cfg) (s : State) (w : Who) (now : Int) : Op → State × Resp
       if !v.holdSet then (s, errR "NoSuchObjectLockConfiguration") else (s, okR [("hold", if v.hold then "ON" else "OFF")])
   | .createUpload b k p newId => withBucket s b fun bk =>
     guarded (verifyAccess cfg bk w .write actPutObject k) s fun _ =>
+    -- lock headers on a bucket without object lock: refused (posix.CreateMultipartUpload removes what it had created)
+    guarded (if (p.hold || p.retention.isSome) && !((bk.lock.map (·.enabled)).getD false)
+             then some "InvalidRequest" else none) s fun _ =>
     let up : Upload := { key := k, id := newId, ctype := p.ctype, umeta := p.umeta, hdrs := p.hdrs, tags := p.tags }
     (setBucket s { bk with uploads := bk.uploads ++ [up] }, okR [("key", hx k), ("uploadid", hx newId)])
   | .uploadPart b k id num data etag => withBucket s b fun bk =>
